@@ -87,6 +87,12 @@ def _analyze(mod, ob, mode, timeout, exclude=()):
     from crosshair.statespace import MessageType
     from dataclasses import replace
 
+    # No "short-circuiting" of callees that happen to carry a contract-like
+    # docstring: every call is executed, nothing is abstracted to an
+    # uninterpreted return value.
+    import crosshair.core as _core
+    _core.ShortCircuitingContext.make_interceptor = lambda self, original: original
+
     stats = {"z3_checks": 0, "z3_time": 0.0}
     orig_check = z3.Solver.check
 
